@@ -162,6 +162,8 @@ class Rewriter:
         line = b["line"]
         dest = t["dest"]["l"]
         dty = self.locals[dest]["ty"]
+        if name == "branch" and (c.get("trait") or "").endswith("ops::Try") and len(t["args"]) == 1:
+            return self.rewrite_try_branch(bi)
         is_opt = path.startswith("std::option::Option::<T>::")
         is_res = path.startswith("std::result::Result::<T, E>::")
         is_bool = path.startswith("core::bool::<impl bool>::") or path.startswith("std::bool::<impl bool>::")
@@ -336,6 +338,48 @@ class Rewriter:
             self.blocks[bn]["term"] = {"k": "goto", "to": after}
             return True
         return False
+
+    def rewrite_try_branch(self, bi):
+        """`x?`: Try::branch(x) of an Option / Result is `match x { Some(v)|Ok(v) => Continue(v), None => Break(None),
+        Err(e) => Break(Err(e)) }` -- pure control flow, so that the test behind a `?` is an ordinary discriminant switch"""
+        b = self.blocks[bi]
+        t = b["term"]
+        full = t["callee"].get("full") or ""
+        line = b["line"]
+        if t.get("to") is None or t["dest"]["proj"]:
+            return False
+        subj = t["args"][0].get("move") or t["args"][0].get("copy")
+        if subj is None or subj["proj"]:
+            return False
+        S = subj["l"]
+        sty = self.locals[S]["ty"]
+        if sty.startswith("std::option::Option<"):
+            is_opt = True
+        elif sty.startswith("std::result::Result<"):
+            is_opt = False
+        else:
+            return False
+        dest = t["dest"]["l"]
+        after = t["to"]
+        dl = self.new_local("isize")
+        b["stmts"].append(_assign(_pl(dl), {"discr": _pl(S)}, line))
+        bs, bn, bu = self.new_block(line), self.new_block(line), self.new_block(line)
+        some_idx, none_idx = (1, 0) if is_opt else (0, 1)
+        b["term"] = {"k": "switch", "on": _mv(dl), "ty": "isize", "arms": [[none_idx, bn], [some_idx, bs]], "otherwise": bu, "syn": True}
+        v = self.new_local("?")
+        self.blocks[bs]["stmts"].append(_assign(_pl(v), {"use": _mv(S, _variant("Some" if is_opt else "Ok", some_idx, "?", sty))}, line))
+        self.blocks[bs]["stmts"].append(_assign(_pl(dest), {"agg": {"adt": "std::ops::ControlFlow", "variant": "Continue", "vidx": 0, "local": False}, "ops": [_mv(v)]}, line))
+        self.blocks[bs]["term"] = {"k": "goto", "to": after}
+        r = self.new_local(sty)
+        if is_opt:
+            self.blocks[bn]["stmts"].append(_assign(_pl(r), {"agg": {"adt": "std::option::Option", "variant": "None", "vidx": 0, "local": False}, "ops": []}, line))
+        else:
+            e = self.new_local("?")
+            self.blocks[bn]["stmts"].append(_assign(_pl(e), {"use": _mv(S, _variant("Err", 1, "?", sty))}, line))
+            self.blocks[bn]["stmts"].append(_assign(_pl(r), {"agg": {"adt": "std::result::Result", "variant": "Err", "vidx": 1, "local": False}, "ops": [_mv(e)]}, line))
+        self.blocks[bn]["stmts"].append(_assign(_pl(dest), {"agg": {"adt": "std::ops::ControlFlow", "variant": "Break", "vidx": 1, "local": False}, "ops": [_mv(r)]}, line))
+        self.blocks[bn]["term"] = {"k": "goto", "to": after}
+        return True
 
     # ---- C. a local closure called on the spot ------------------------------------------------------------
     def rewrite_closure_call(self, bi):
@@ -758,7 +802,7 @@ def normalise(F):
             if t["k"] == "call" and "indirect" not in t["callee"]:
                 n = t["callee"].get("name")
                 if n in Rewriter.SINKS or n in ("map", "map_or", "map_or_else", "and_then", "unwrap_or_else", "filter", "flatten",
-                                                "map_err", "then", "then_some", "call", "call_mut", "call_once", "ok", "ok_or"):
+                                                "map_err", "then", "then_some", "call", "call_mut", "call_once", "ok", "ok_or", "branch"):
                     has = True
                     break
         if not has:
